@@ -575,6 +575,45 @@ impl Run {
     pub fn extra(&self, k: &str, v: Value) {
         self.extras.lock().unwrap().insert(k.to_string(), v);
     }
+    /// Fold the outcome of the same monitor executed in another build profile into this run: its
+    /// violations are re-raised here under `<lane>|<signature>`, its evaluations are added, and an
+    /// unreadable or inconclusive summary makes this run inconclusive (never a silent pass).
+    pub fn import_lane(&self, lane: &str, path: &str) {
+        let doc: Value = match std::fs::read_to_string(path).ok().and_then(|s| serde_json::from_str(&s).ok()) {
+            Some(d) => d,
+            None => {
+                self.inconclusive(format!("{}_lane:summary_unreadable({})", lane, path));
+                return;
+            }
+        };
+        let mut l = self.local();
+        let cov = &doc["coverage"];
+        if let Some(rs) = cov["inconclusive_reasons"].as_array() {
+            for r in rs {
+                self.inconclusive(format!("{}_lane:{}", lane, r.as_str().unwrap_or("?")));
+            }
+        }
+        let mut sigs = vec![];
+        for v in cov["violation_signatures"].as_array().cloned().unwrap_or_default() {
+            let sig = v["signature"].as_str().unwrap_or("?").to_string();
+            let rep: Value = v["replay"].as_str().and_then(|p| std::fs::read_to_string(p).ok()).and_then(|s| serde_json::from_str(&s).ok()).unwrap_or(Value::Null);
+            let mut case = rep["case"].clone();
+            if let Some(o) = case.as_object_mut() {
+                o.insert("lane".into(), json!(lane));
+            }
+            l.violation(format!("{}|{}", lane, sig), format!("[{} build] {}", lane, v["what"].as_str().unwrap_or("")), case, rep["detail"].clone());
+            sigs.push(sig);
+        }
+        l.evals(cov["evaluations"].as_u64().unwrap_or(0));
+        if cov["evaluations"].as_u64().unwrap_or(0) > 0 {
+            l.count_s(format!("{} lane judged", lane));
+        }
+        self.extra(
+            &format!("{}_lane", lane),
+            json!({"evaluations": cov["evaluations"], "distinct_nontrivial": cov["distinct_nontrivial"], "verdict": doc["verdict"], "violation_signatures": sigs, "wall_s": doc["wall_s"], "classes": cov["classes"]}),
+        );
+        self.absorb(l);
+    }
     pub fn require(&self, classes: &[&str]) {
         let mut r = self.required.lock().unwrap();
         for c in classes {
